@@ -728,9 +728,6 @@ theorem mkProperty_names (env : Env) (name value prio : Cps) (q : Pty)
   · simp only [hn, Bool.false_eq_true, if_false, bind, Except.bind, pure, Except.pure] at h
     exact key Pty.empty rfl h
 
-theorem setName_wf_false (env : Env) (p q : Pty) (toks : List Tok) (h : setName env p toks = .ok q) :
-    q.wf = true → q.nameSeq ≠ [] ∨ True := fun _ => Or.inr trivial
-
 /-- a property built from an empty name is not well-formed -/
 theorem mkProperty_wf_name (env : Env) (name value prio : Cps) (q : Pty)
     (h : mkProperty env name value prio = .ok q) (hw : q.wf = true) : name ≠ [] := by
